@@ -1130,6 +1130,11 @@ def translate_source():
                f'def checkTargets : List (String × String) := {_lsig([(c[0], c[1]) for c in chk])}\n\n')
     out.append('/-- statements that are not Lean definitions, pinned as normalised text (ast.unparse) in source order -/\n'
                'def pins : List String :=\n  [' + ',\n   '.join(_lstr(p) for p in pins) + ']\n\n')
+    # statement audit: theta() of the isotropic solver (branch of arctan, special cases on x = 0, the `>= pi` fold) is
+    # modelled by hand (`thetaOf`); its statements are pinned so that an edit of the branch handling breaks a named obligation
+    th = [ast.unparse(st) for st in strip_doc(_method(ti, 'IsotropicVolterraDislocation', 'theta').body)]
+    out.append('/-- the statements of `IsotropicVolterraDislocation.theta` (normalised text), modelled by `C12.thetaOf` -/\n'
+               'def thetaBody : List String :=\n  [' + ',\n   '.join(_lstr(t) for t in th) + ']\n\n')
     out.append('end Atomman.Gen.Stroh\n')
     return ''.join(out)
 
@@ -4362,7 +4367,7 @@ THEOREMS = [
     # isotropic closed form (generated definitions)
     'C12.iso_stress_is_hooke', 'C12.iso_symmetric', 'C12.iso_falls_as_inv_r', 'C12.iso_burgers_jump',
     'C12.iso_jump_general', 'C12.iso_K_symm', 'C12.iso_K_posdef',
-    'C12.thetaOf_halfplanes', 'C12.iso_strain_is_symgrad_deriv', 'C12.iso_stress_div_free_deriv',
+    'C12.thetaOf_halfplanes', 'C12.gen_theta_pinned', 'C12.iso_strain_is_symgrad_deriv', 'C12.iso_stress_div_free_deriv',
     # units: the same problem in another length / stiffness unit (repo fixes 540bb56, fc87dd0)
     'C12.length_unit_covariant', 'C12.length_unit_displacement', 'C12.stiffness_unit_eigen', 'C12.stiffness_unit_covariant',
     'C12.stroh_checks_unit_invariant', 'C12.iso_unit_covariant', 'C12.iso_length_unit_displacement',
